@@ -312,7 +312,9 @@ func c04Run(r *core.Run) {
 
 		keyNames := []string{"k1", "k2", "k3", "a1", "a2", "a3", "a4", "kt", "nosuchkey"}
 		identNames := []string{"client-fp-1", "client-fp-2", "client-unknown-1", "ca-1-client-a", "ca-1-client-expired", "ca-2-client-a",
-			"ca-1-client-a", "ca-1-client-a-self", "ca-1-client-a-otherca", "ca-1-client-a-lapsed", "public-client", "ca-1-server-only", ""}
+			"ca-1-client-a", "ca-1-client-a-self", "ca-1-client-a-otherca", "ca-1-client-a-lapsed", "public-client", "ca-1-server-only", "ca-1-client-a-renamed", "ca-1-client-a", ""}
+		// ("ca-1-client-a-renamed": another certificate of the same CA for the same
+		// key pair under another subject - a renewal under a new name)
 		// ("ca-1-server-only": issued by a configured client CA, but for another
 		// purpose - a server certificate without the client-authentication usage;
 		// it is not "a client certificate" of that CA)
@@ -601,7 +603,13 @@ func c04Run(r *core.Run) {
 						} else if !sigs[0].X509Signature.Certificate.Equal(wantIdent.Cert) {
 							r.Failf("C04.wrong-key-used", "sign/"+kclass, "signature was made with another key than the one the name resolves to: %s", desc)
 						}
-						signed = append(signed, map[string]string{"file": fileName, "ip": effIP, "name": caller.Name, "key": target.Name(), "policy": fmt.Sprint(policyMode)})
+						sg := map[string]string{"file": fileName, "ip": effIP, "name": caller.Name, "key": target.Name(), "policy": fmt.Sprint(policyMode)}
+						if !policyMode && effIdent != "" && clientRoles[effIdent] == nil && pki[effIdent] != nil {
+							// recognised through its issuing CA: the record names the
+							// subject of the certificate that was presented
+							sg["cn"] = pki[effIdent].Cert.Subject.CommonName
+						}
+						signed = append(signed, sg)
 					}
 				}
 			}
@@ -630,6 +638,12 @@ func c04Run(r *core.Run) {
 			}
 			if n, _ := rec[who].(string); n != s["name"] {
 				r.Failf("C04.recorded-identity-wrong", who, "audit record of %s says %s=%q, the caller is %q", s["file"], who, n, s["name"])
+			}
+			if cn := s["cn"]; cn != "" {
+				if dn, _ := rec["client.dn"].(string); !strings.HasSuffix(dn, "CN="+cn) {
+					r.Failf("C04.recorded-identity-wrong", "client.dn", "audit record of %s says client.dn=%q, the caller presented a certificate for CN=%s", s["file"], dn, cn)
+				}
+				r.Probe("ca-client-identity-recorded")
 			}
 			if k, _ := rec["sig.keyname"].(string); k != s["key"] {
 				r.Failf("C04.recorded-identity-wrong", "sig.keyname", "audit record of %s names key %q, the name resolves to %q", s["file"], k, s["key"])
